@@ -217,6 +217,32 @@ def r4(ctx, rep):
         # one set filled inside the loop (names given so far), one collected BEFORE any name is generated (names columns already have)
         pre_filled = [nm for nm in sets if "collect" in show(before[nm]["init"], maxdepth=14) and "cols_at_split" in show(before[nm]["init"], maxdepth=14)]
         ok = ok or (len(sets) >= 2 and bool(pre_filled))
+    # writer / reader agreement on the set that is filled while names are given out: what is entered is the name that was given
+    # (the variable the loop tests and regenerates), each time one is given
+    strip = lambda t: re.sub(r"\.(clone|to_owned|to_string)\(\)$", "", t.lstrip("&*")).strip()
+    filled_ok, detail = False, "no set that is filled inside the column loop is tested by the regeneration loop"
+    for st in a["body"]["s"]:
+        if st.get("k") != "for":
+            continue
+        for w, before in loops:
+            if not guards._contains(st["body"], w):
+                continue
+            for m in walk(w["c"]):
+                if m.get("k") == "mcall" and m["m"] == "contains" and m["a"] and show(m["r"]) in before:
+                    S, v = show(m["r"]), strip(show(m["a"][0]))
+                    fills = [x for x in walk(st["body"]) if x.get("k") == "mcall" and x["m"] in ("insert", "extend", "push") and show(x["r"]) == S and x["a"]]
+                    if not fills:
+                        continue        # a set collected before the loop (checked above)
+                    wrong = [show(x["a"][-1]) for x in fills if strip(show(x["a"][-1])) != v]
+                    # the fill follows the regeneration loop in the same block (the name is final there)
+                    blk = guards.parents(st["body"]).get(id(w))
+                    after = [x for x in fills if blk is not None and blk.get("k") == "block" and any(guards._contains(s2, x) or s2 is x for s2 in blk["s"][[i for i, s2 in enumerate(blk["s"]) if s2 is w][0] + 1:])] if blk is not None and blk.get("k") == "block" and any(s2 is w for s2 in blk["s"]) else []
+                    filled_ok = not wrong and bool(after)
+                    detail = f"`{S}` is tested for `{v}` but filled with {wrong or [show(x['a'][-1]) for x in fills]}" + ("" if after else " (not after the regeneration loop, where the name is final)")
+    rep.check(filled_ok, "gen:prqlc::sql::pq::anchor::anchor_split:given-names-recorded",
+              f"anchor_split: the set of names already given at this split must receive every name that is given (the regenerated one, not the name before renaming): {detail}; "
+              "otherwise a later column that is literally called like a name just generated (`_expr_0`) is not seen as a clash, two columns of the sub-query share a name and a reference binds to the wrong one",
+              file=a["file"], line=a["l"], fn=a["path"])
     rep.check(ok, "gen:prqlc::sql::pq::anchor::anchor_split:user-names-first",
               "anchor_split regenerates a clashing name in column order, so when an unnamed expression precedes a user column called `_expr_N` it is the USER's column that is renamed; "
               "the loop must also test a set of the names the split's columns had before any name was generated, and only rename generated names",
@@ -329,6 +355,12 @@ def r9(ctx, rep):
               "schema path). Keyed by the last part, `s.t` and `r.t` clash and the user's table `s.t` is renamed to a generated `table_0`, which does not exist", file=f["file"], line=f["l"], fn=f["path"])
 
 
+def r10(ctx, rep):
+    # two relation instances of one SELECT must not share a name: the set of names in use is isolated around nested pipelines, not cleared
+    import C07
+    rep.borrowed(C07.r4, ctx, "C09.R10", "generated relation aliases are distinct from every name already used in the same SELECT", only=r"^names-scope")
+
+
 def run(ctx, rep):
-    for r in (r1, r2, r3, r4, r5, r6, r7, r8, r9):
+    for r in (r1, r2, r3, r4, r5, r6, r7, r8, r9, r10):
         rep.guard(r, ctx)
